@@ -6,6 +6,77 @@ from rules import dtdcommon as D
 UNITS = ['parsec/interfaces/dtd/insert_function.c', 'parsec/interfaces/dtd/overlap_strategies.c', 'parsec/interfaces/dtd/parsec_dtd_data_flush.c']
 
 
+def check_chain_index(ctx):
+    """parsec_dtd_ordering_correctly walks the chain of readers behind a completed writer with a pair (task, flow index):
+    the index names a flow *of that task*.  When it steps to the next task in line, the index variable is reloaded from the
+    current task's descriptor - from there on it names a flow of the NEXT task, and the current task must be addressed
+    with the index saved before the step.  Pairing the advanced index with the old task clears / reads the link of an
+    unrelated flow: a successor is activated twice or never (results differ from sequential order)."""
+    rd = ctx.rule('R03.d', 'chain walk: after the flow index was advanced to the next task in line, the current task is addressed only with the saved index', floor=4)
+    u = ctx.extract(UNITS[1])
+    f = u.func('parsec_dtd_ordering_correctly'); ctx.functions_analysed.add(f.name)
+    # the advancing store: I = (...(T...)[I]...)->flow_index, with T a local task pointer
+    adv = []
+    for s_ in f.stores():
+        if s_.lhs.k == 'ref' and s_.op == '=' and s_.rhs is not None and s_.rhs.k == 'mem' and s_.rhs.n == 'flow_index':
+            I = s_.lhs.s
+            refs = [x.s for x in s_.rhs.walk() if x.k == 'ref' and x.dk in ('var', 'parm')]
+            if I in refs:
+                ts = [r for r in refs if r != I]
+                if len(set(ts)) == 1:
+                    adv.append((s_, I, ts[0]))
+    if len(adv) != 1:
+        raise AnalysisBroken('parsec_dtd_ordering_correctly: expected one self-advancing flow-index store, found %d' % len(adv))
+    a_ev, I, T = adv[0]
+
+    def pairs(e):
+        """does expression e address task T with index I ?  (pointer arithmetic / subscripts on T with I, or both passed to one call)"""
+        if e is None:
+            return False
+        for x in e.walk():
+            if x.k == 'idx' and x.ch[1].s == I and any(y.s == T for y in x.ch[0].walk()):
+                return True
+            if x.k == 'bin' and x.op == '+' and any(y.s == I for y in x.ch[1].walk()) and any(y.s == T for y in x.ch[0].walk()):
+                return True
+            if x.k == 'call' and any(c.s == T for c in x.ch) and any(c.s == I for c in x.ch):
+                return True
+        return False
+
+    def transfer(ev, st):
+        if ev is a_ev:
+            return True
+        if ev.kind == 'store' and ev.lhs.s == T:
+            return False
+        if ev.kind == 'store' and ev.lhs.s == I and ev is not a_ev:
+            return False            # reloaded from another source: belongs to whatever the code pairs it with next
+        return st
+    sin, before, at_end = f.forward(False, transfer, lambda a, b: a or b)
+    n = 0
+    for ev in f.events():
+        exprs = []
+        if ev.kind == 'store':
+            exprs = [ev.lhs, ev.rhs]
+        elif ev.kind == 'call':
+            exprs = [ev.e]
+        elif ev.kind == 'load':
+            exprs = [ev.e]
+        if ev is a_ev or not any(pairs(x) for x in exprs):
+            continue
+        st = before(ev)
+        if st is None:
+            continue
+        n += 1
+        rd.expect(not st, 'chain-index:%s:%d' % (ev.kind, f.line_of(ev.nid) - f.line), ev.loc,
+                  'parsec_dtd_ordering_correctly addresses %s with %s after %s was advanced to the next task in line (at %s): that index names a flow of the next task, not of %s'
+                  % (T, I, I, a_ev.loc, T), note='%s paired with %s while it still names a flow of %s' % (T, I, T))
+    # the link of the current reader is cleared with the saved index
+    saved = [s_ for s_ in f.stores() if s_.lhs.k == 'ref' and s_.rhs is not None and s_.rhs.s == I and s_.op == '=' and s_.lhs.s != I]
+    clr = [s_ for s_ in f.stores() if s_.lhs.k == 'mem' and s_.lhs.n == 'task' and s_.rhs is not None and s_.rhs.cv == 0 and any(y.s == T for y in s_.lhs.walk())]
+    ok = len(saved) >= 1 and len(clr) >= 1 and all(any(y.s == saved[0].lhs.s for y in c.lhs.walk()) for c in clr)
+    rd.expect(ok, 'chain-index:clear-link', clr[0].loc if clr else f.where(), 'the consumed link of the current reader must be cleared through the index saved before the step (%s)' % (saved[0].lhs.s if saved else '?'),
+              note='link of the current reader cleared with the saved index')
+
+
 def run(ctx):
     ctx.explanation = ('Static clauses on the DTD tile chain: (a) GUARDED_BY — every read/write of a tile\'s shared last_user / last_writer record happens with that tile\'s lock held on all paths '
                        '(tile construction excepted); (b) in parsec_insert_dtd_task the snapshot of the previous user/writer and the update making this task the new user/writer are in one critical '
@@ -36,6 +107,7 @@ def run(ctx):
                 D.check_pairing(f, ls, rc)
     if nlock < 6:
         raise AnalysisBroken('expected >= 6 tile lock sites, found %d' % nlock)
+    check_chain_index(ctx)
     u = ctx.extract(UNITS[0])
     f = u.func('parsec_insert_dtd_task')
     this_task = None
